@@ -6,7 +6,11 @@ namespace riddle
     using namespace ast;
 
     RIDDLE_EXPORT parser::parser(std::istream &is) : lex(is) {}
-    RIDDLE_EXPORT parser::~parser() {}
+    RIDDLE_EXPORT parser::~parser()
+    {
+        for (const auto &t : tks)
+            delete t;
+    }
 
     token *parser::next()
     {
